@@ -225,7 +225,7 @@ fn run_matrix_case(h: &mut Harness, idx: usize, c: &MCase) -> Result<(String, Va
         let (f, e) = h.collect(&mut cli, 1, 4);
         follow = if e.is_some() || f.is_empty() { "no-answer-to-PING-afterwards".into() } else { "ok".into() };
     }
-    cli.close();
+    cli.discard();
     if let Some(s) = h.srv.as_ref() {
         if !s.is_dead() {
             let _ = s.steps(2);
@@ -373,11 +373,11 @@ fn segment_task(h: &mut Harness, task: &Value) -> Result<Value, String> {
                     devs.push(json!({"sig": format!("C05|SEGMENTATION|{}", kind), "pipeline": cmds, "cuts": if cuts.len() > 6 { json!("single bytes") } else { json!(cuts) }, "whole": whole, "segmented": got, "error": err}));
                 }
                 // resynchronise with a fresh connection
-                cli.close();
+                cli.discard();
             }
         }
     }
-    cli.close();
+    cli.discard();
     Ok(json!({"executions": execs, "devs": devs, "outcomes": outcomes.len()}))
 }
 
@@ -434,7 +434,7 @@ fn violation_task(h: &mut Harness) -> Result<Value, String> {
         } else {
             "silence"
         };
-        cli.close();
+        cli.discard();
         res.push(json!({"name": name, "outcome": outcome, "replies": shown, "frame": resp::show_bytes(&frame)}));
     }
     // k commands per read
@@ -448,7 +448,7 @@ fn violation_task(h: &mut Harness) -> Result<Value, String> {
         cli.send(&bytes);
         let (got, err) = h.collect(&mut cli, k, 6);
         let ok = err.is_none() && got.len() == k && got.iter().enumerate().all(|(i, r)| *r == R::Bulk(format!("{}", i).into_bytes()));
-        cli.close();
+        cli.discard();
         res.push(json!({"name": format!("{} commands in one read", k), "outcome": if ok { "in-order" } else { "wrong" }, "replies": got.len(), "error": err}));
     }
     Ok(json!({"cases": res}))
